@@ -10,6 +10,6 @@ rsync -a --delete --exclude target --exclude .git "$repo"/ "$scratch"/src_copy/
 name=$(basename "$t" .rs)
 cp "$t" "$scratch/src_copy/tests/$name.rs"
 cd "$scratch/src_copy" || exit 2
-export CARGO_TARGET_DIR="$scratch/target" CARGO_NET_OFFLINE=true RUSTFLAGS="--cfg cablehead_xs_verif"
-timeout 1800 cargo test --offline --test "$name" -- --nocapture --test-threads 1 2>&1 | tail -60
+export RUST_BACKTRACE=0 CARGO_TARGET_DIR="$scratch/target" CARGO_NET_OFFLINE=true RUSTFLAGS="--cfg cablehead_xs_verif"
+timeout 1800 cargo test --offline --test "$name" -- ${VX_TEST_FILTER:-} --nocapture --test-threads 1 2>&1 | tail -${VX_TAIL:-400}
 exit ${PIPESTATUS[0]}
